@@ -149,8 +149,8 @@ def run(ctx, ck):
 
     # ---------------------------------------------------------------- D2 output
     n_out = 0
-    writer_funcs = [f_ for f_ in m.all_funcs() if ('as_mininec' in f_.name or 'as_cmdline' in f_.name or
-                                                   'as_basic_input' in f_.name) and f_.name not in DEBUG_FUNCS]
+    from ..rules import writer_functions
+    writer_funcs = writer_functions(ctx, ('as_mininec', 'as_cmdline', 'as_basic_input'), exclude=DEBUG_FUNCS)
     for f_ in sorted(writer_funcs, key=lambda x: x.qual):
         loopvars = set()
         for l in loops_in(f_.node):
